@@ -361,10 +361,18 @@ static void tu_params_from_cfg(CMR_TU_PARAMS* params)
 }
 
 /* case: cfg M     record: ncfg cfg M rc verdict(0/1, 2 = not written) hasSub [submatrix] */
+static bool tu_presign = false;
+
 static void do_tu(CMR* cmr)
 {
   read_cfg();
   CMR_CHRMAT* M = read_chrmat(cmr);
+  if (tu_presign)
+  {
+    /* api tu_signed: the input is replaced by its Camion signing first (the record echoes the signed matrix) */
+    bool was;
+    die_on(CMRcamionComputeSigns(cmr, M, &was, NULL, NULL, DBL_MAX), "CMRcamionComputeSigns");
+  }
   CMR_TU_PARAMS params;
   tu_params_from_cfg(&params);
   unsigned char flag = 2;
@@ -382,6 +390,13 @@ static void do_tu(CMR* cmr)
   if (sub)
     CMRsubmatFree(cmr, &sub);
   CMRchrmatFree(cmr, &M);
+}
+
+static void do_tu_signed(CMR* cmr)
+{
+  tu_presign = true;
+  do_tu(cmr);
+  tu_presign = false;
 }
 
 /* ---------- C02: regularity ---------- */
@@ -487,6 +502,139 @@ static void do_pivot(CMR* cmr)
   CMRchrmatFree(cmr, &M);
 }
 
+/* ---------- C08: series-parallel ---------- */
+
+static void o_opt_submat(CMR_SUBMAT* s)
+{
+  oi(s ? 1 : 0);
+  if (s)
+    o_submat(s);
+}
+
+/* case: ternary api maxRed wantVerdict wantReds wantReduced wantViolator wantSepa preCount M
+ * record: the 8 request ints, M, rc, verdict(0/1/2), numReds(-1 SIZE_MAX, -2 not requested), k pairs.., reduced, violator, sepa
+ * preCount: value stored in the caller's reduction counter before the call (stale-counter probe). */
+static void do_sp(CMR* cmr)
+{
+  long long tern = nx(), api = nx(), maxred = nx(), wv = nx(), wr = nx(), wd = nx(), wviol = nx(), ws = nx(), pre = nx();
+  CMR_CHRMAT* M = read_chrmat(cmr);
+  unsigned char flag = 2;
+  size_t numReds = (size_t) pre;
+  CMR_SP_REDUCTION* reds = NULL;
+  if (wr)
+    reds = malloc((M->numRows + M->numColumns + 1) * sizeof(CMR_SP_REDUCTION));
+  CMR_SUBMAT* reduced = NULL;
+  CMR_SUBMAT* viol = NULL;
+  CMR_SEPA* sepa = NULL;
+  CMR_ERROR rc;
+  size_t mr = maxred < 0 ? SIZE_MAX : (size_t) maxred;
+  if (api == 0)
+  {
+    if (tern)
+      rc = CMRspTestTernary(cmr, M, wv ? (bool*) &flag : NULL, reds, wr ? &numReds : NULL, wd ? &reduced : NULL,
+        wviol ? &viol : NULL, NULL, DBL_MAX);
+    else
+      rc = CMRspTestBinary(cmr, M, wv ? (bool*) &flag : NULL, reds, wr ? &numReds : NULL, wd ? &reduced : NULL,
+        wviol ? &viol : NULL, NULL, DBL_MAX);
+  }
+  else
+  {
+    if (tern)
+      rc = CMRspDecomposeTernary(cmr, M, wv ? (bool*) &flag : NULL, reds, mr, wr ? &numReds : NULL, wd ? &reduced : NULL,
+        wviol ? &viol : NULL, ws ? &sepa : NULL, NULL, DBL_MAX);
+    else
+      rc = CMRspDecomposeBinary(cmr, M, wv ? (bool*) &flag : NULL, reds, mr, wr ? &numReds : NULL, wd ? &reduced : NULL,
+        wviol ? &viol : NULL, ws ? &sepa : NULL, NULL, DBL_MAX);
+  }
+  rec_begin();
+  oi(tern); oi(api); oi(maxred); oi(wv); oi(wr); oi(wd); oi(wviol); oi(ws);
+  o_chr_dense(M);
+  oi(rc);
+  oi(flag);
+  if (!wr)
+  {
+    oi(-2);
+    oi(0);
+  }
+  else if (numReds == SIZE_MAX)
+  {
+    /* the count is not reported; the array holds at most maxRed valid entries */
+    oi(-1);
+    size_t k = (maxred < 0) ? 0 : (size_t) maxred;
+    if (k > M->numRows + M->numColumns)
+      k = M->numRows + M->numColumns;
+    osz(k);
+    for (size_t i = 0; i < k; ++i)
+    {
+      oi(reds[i].element);
+      oi(reds[i].mate);
+    }
+  }
+  else
+  {
+    size_t k = numReds;
+    if (k > M->numRows + M->numColumns)
+      k = M->numRows + M->numColumns + 1; /* nonsense count: make the record fail to decode */
+    osz(numReds);
+    osz(k);
+    for (size_t i = 0; i < k && i < M->numRows + M->numColumns; ++i)
+    {
+      oi(reds[i].element);
+      oi(reds[i].mate);
+    }
+  }
+  o_opt_submat(rc ? NULL : reduced);
+  o_opt_submat(rc ? NULL : viol);
+  if (!rc && sepa)
+  {
+    oi(1);
+    osz(sepa->numRows);
+    for (size_t i = 0; i < sepa->numRows; ++i)
+      oi(sepa->rowsFlags[i]);
+    osz(sepa->numColumns);
+    for (size_t i = 0; i < sepa->numColumns; ++i)
+      oi(sepa->columnsFlags[i]);
+    oi(sepa->type);
+  }
+  else
+    oi(0);
+  rec_end();
+  if (reduced)
+    CMRsubmatFree(cmr, &reduced);
+  if (viol)
+    CMRsubmatFree(cmr, &viol);
+  if (sepa)
+    CMRsepaFree(cmr, &sepa);
+  free(reds);
+  CMRchrmatFree(cmr, &M);
+}
+
+/* ---------- C17: balanced ---------- */
+
+/* case: algorithm seriesParallel wantSub M   record: same + rc verdict(0/1/2) hasSub [sub] */
+static void do_balanced(CMR* cmr)
+{
+  long long alg = nx(), sp = nx(), ws = nx();
+  CMR_CHRMAT* M = read_chrmat(cmr);
+  CMR_BALANCED_PARAMS params;
+  CMRbalancedParamsInit(&params);
+  params.algorithm = (CMR_BALANCED_ALGORITHM) alg;
+  params.seriesParallel = sp;
+  unsigned char flag = 2;
+  CMR_SUBMAT* sub = NULL;
+  CMR_ERROR rc = CMRbalancedTest(cmr, M, (bool*) &flag, ws ? &sub : NULL, &params, NULL, DBL_MAX);
+  rec_begin();
+  oi(alg); oi(sp); oi(ws);
+  o_chr_dense(M);
+  oi(rc);
+  oi(flag);
+  o_opt_submat(rc ? NULL : sub);
+  rec_end();
+  if (sub)
+    CMRsubmatFree(cmr, &sub);
+  CMRchrmatFree(cmr, &M);
+}
+
 /* ---------- dispatch ---------- */
 
 typedef void (*handler)(CMR*);
@@ -498,8 +646,11 @@ static struct
   {"ctu_compl", do_ctu_compl},
   {"ctu_test", do_ctu_test},
   {"tu", do_tu},
+  {"tu_signed", do_tu_signed},
   {"regular", do_regular},
   {"pivot", do_pivot},
+  {"sp", do_sp},
+  {"balanced", do_balanced},
   {NULL, NULL}
 };
 
